@@ -18,6 +18,13 @@ degrees) the check enumerates
   minus lines with an end point within tolerance of an edge or passing within tolerance of a node (this
   also removes every line running along an edge).
 
+* histories (both tiers): on ONE geometry object (rect, g7; thorough also g5) a query pass (every second row and
+  column of the point lattice x every single aid with quadtrees built for that stage, the 3-D set of every column,
+  every ordered pair of a 5x5 line lattice) is followed by an in-place transform and another pass, for the sequences
+  query, rotate(30), translate, rotate(-75) and query, translate, rotate(90); the exact reference is recomputed from
+  the transformed node coordinates at every stage; signatures carry '|after=query+rotate...'.  A quadtree built
+  before a transform is stale by contract and is never used after it.
+
 Oracle = the property statement, evaluated with the exact reference geometry ref/geo_c12.py (integer
 arithmetic on the node coordinates; nothing under test is called by it).
 """
@@ -40,7 +47,9 @@ RULE = ('per geometry: every point of the shifted 41x41 lattice over the enlarge
         'columns containing it; quadtree over all columns and over each such subset; every pair of aids); for every node '
         'the 9 points (3 x offsets) x (y of the node, its two floating-point neighbours) x every single aid; per column '
         'one interior point x the elevation set x {no quadtree, quadtree}; every ordered pair of lattice points as a '
-        'line, not within tolerance of a node. A case is distinct by (geometry, point or line or (column, elevation), '
+        'line, not within tolerance of a node; and on one object of rect, g7 (thorough: g5) the sequences query, '
+        'rotate(30), translate, rotate(-75) and query, translate, rotate(90) with a reduced query pass (21x21 points x '
+        'single aids, all columns x elevations, 5x5 line lattice) after every step. A case is distinct by (geometry, point or line or (column, elevation), '
         'aid combination); a point case is non-trivial when the point is inside the bounding box, a line case when the '
         'line crosses at least one column')
 ASSUMPTIONS = [
@@ -58,6 +67,9 @@ ASSUMPTIONS = [
     'track, one longer than 2e-3 x must be present, in between either; two pieces of one (non-convex) column '
     'separated by less than 2e-3 x its longest side may be reported as one',
     'track points are compared to the exact ones with tolerance 1e-8 x (line length + geometry diagonal)',
+    'history units: a quadtree is always built on the object as it is at that stage (one built before a transform is '
+    'stale by contract and not asserted on); the reference is recomputed from the transformed node coordinates, '
+    'layer elevations and column surfaces',
     'refine() and rotate() are used only to build geometries; refined columns are labelled name-free (rank by '
     'centre) because refine() names new columns in set order',
 ]
@@ -67,13 +79,15 @@ BOUNDS = {
               'aids': 'every single aid and every pair of aids (pairs and vertex-aligned points use the reduced guess set: '
                       'true/nearest column, its neighbours, the farthest column)',
               'line_lattice': '7x7 (2352 ordered pairs per geometry)',
-              'guess': 'every column when the geometry has <= 120 columns', 'elevations': 'full set, every column'},
+              'guess': 'every column when the geometry has <= 120 columns', 'elevations': 'full set, every column',
+              'histories': 'rect, g7 x 2 transform sequences (3 and 2 in-place transforms), query pass after every step'},
     'thorough': {'geometries': ['rect', 'rect_rr', 'g7', 'g7_rr', 'g5', 'g5_rr', 'g1', 'g1_rr'],
                  'point_lattice': '41x41 + 3x3 per column + 9 vertex-aligned points per node',
                  'aids': 'every single aid and every pair of aids (pairs and vertex-aligned points use the reduced guess '
                          'set: true/nearest column, its neighbours, the farthest column)',
                  'line_lattice': '9x9 (6480 ordered pairs per geometry)',
-                 'guess': 'every column when the geometry has <= 120 columns', 'elevations': 'full set, every column'},
+                 'guess': 'every column when the geometry has <= 120 columns', 'elevations': 'full set, every column',
+                 'histories': 'rect, g7, g5 x 2 transform sequences (3 and 2 in-place transforms), query pass after every step'},
 }
 TECHNIQUE = ('lattice enumeration (E3) of points x search-aid combinations, 3-D points and lines on the real mulgrid '
              'methods against an exact integer-arithmetic reference geometry')
